@@ -3,11 +3,15 @@ import Driver.Common
 /-! `hwmodel throttle`: one case per line
 
 ```
-<limit|-> <period> <gap>:<duration>:<outcome>*
-limit     number, or `-` = bare `@throttle` (limit 1, period 1; the period token is ignored)
-period    f<n> (float) | i<n> (int) | t<n> (timedelta(seconds=n))
-call      gap = ticks since the previous arrival (first: since time 0), duration of the wrapped
-          function, outcome v (returns) | e (raises an Exception) | b (raises a BaseException)
+<limit|-> <period> <gap>:<duration>:<outcome>[:<a|b>]*
+limit     number, or `-` = bare `@throttle` (limit 1, period 1 s; the period token is ignored)
+period    f<q> (the float q*0.25) | i<n> (int seconds) | t<n> (timedelta(seconds=n))
+          | t<d>,<s>,<ms> (timedelta(days=d, seconds=s, milliseconds=ms), ms a multiple of 250)
+call      all instants in ticks of 0.25 s: gap = ticks since the previous arrival (first: since time
+          0), duration of the wrapped function, outcome v (returns) | e (raises an Exception) | b
+          (raises a BaseException); optional 4th field = whether the harness creates the caller after
+          (a, default) or before (b) the timers due at the arrival instant fire – the model (a FIFO
+          lock) does not depend on it
 ```
 out: `<start>/<caller outcome>/<finish>` per call (`v<i>` / `x<i>` = value / exception object of
 call `i`; `IndexError` when the call died in the wrapper) then `order=<call indices in start order>`. -/
@@ -15,13 +19,20 @@ namespace Driver.Throttle
 open Haiway.Throttle
 
 def parsePeriod (tok : String) : Option PeriodArg :=
-  if tok.startsWith "f" ∨ tok.startsWith "i" then (tok.drop 1).toString.toNat?.map .seconds
-  else if tok.startsWith "t" then (tok.drop 1).toString.toNat?.map .timedelta
+  let body := (tok.drop 1).toString
+  if tok.startsWith "f" then body.toNat?.map .float
+  else if tok.startsWith "i" then body.toNat?.map .int
+  else if tok.startsWith "t" then
+    match (body.splitOn ",").mapM String.toNat? with
+    | some [s] => some (.timedelta 0 s 0)
+    | some [d, s, ms] => if ms % 250 = 0 then some (.timedelta d s ms) else none
+    | _ => none
   else none
 
 def parseCall (idx : Nat) (tok : String) : Option (Nat × Nat × FnOut) :=
   match tok.splitOn ":" with
-  | [g, d, o] =>
+  | g :: d :: o :: mode =>
+    if mode ≠ [] ∧ mode ≠ ["a"] ∧ mode ≠ ["b"] then none else
     match g.toNat?, d.toNat?, o with
     | some g, some d, "v" => some (g, d, .value idx)
     | some g, some d, "e" => some (g, d, .raised idx)
@@ -42,11 +53,11 @@ def runCase (line : String) : String :=
   match Driver.words line with
   | lim :: per :: calls =>
     let bare := lim == "-"
-    match (if bare then some 1 else lim.toNat?), (if bare then some (.seconds 1) else parsePeriod per),
+    match (if bare then some 1 else lim.toNat?), (if bare then some (.int 1) else parsePeriod per),
         parseCalls calls with
     | some limit, some period, some cs =>
       let arrivals := (cs.foldl (fun (acc : List Nat × Nat) c => (acc.1 ++ [acc.2 + c.1], acc.2 + c.1)) ([], 0)).1
-      let rs := run limit period.toSeconds init arrivals
+      let rs := run limit period.toTicks init arrivals
       let shown := (rs.zip cs).map fun (r, c) => showCall r c.2.1 c.2.2
       let order := ((rs.zipIdx).filterMap fun (r, i) =>
         match r with | .started _ => some (toString i) | .indexError => none)
